@@ -810,4 +810,32 @@ Qed.
 
 End VCycle.
 
+(* ------------------------------------------------------------------ *)
+(* the executable checks used by the harness are sound                  *)
+(* ------------------------------------------------------------------ *)
+Lemma sweep_wfb_sound (A : smat) : sweep_wfb F A = true -> sweep_wf A.
+Proof.
+  unfold sweep_wfb. intros H i Hi. rewrite forallb_forall in H.
+  specialize (H i). rewrite in_seq in H. specialize (H ltac:(lia)).
+  unfold row_okb in H. destruct (nth i A []) as [|d rest] eqn:E; [discriminate|].
+  apply andb_true_iff in H. destruct H as [H1 H2]. apply Nat.eqb_eq in H1.
+  exists (snd d), rest. split; [destruct d; simpl in *; subst; reflexivity|].
+  intros p Hp. rewrite forallb_forall in H2. specialize (H2 p Hp).
+  apply andb_true_iff in H2. destruct H2 as [H2 H3].
+  apply negb_true_iff in H2. apply Nat.eqb_neq in H2. apply Nat.ltb_lt in H3. split; assumption.
+Qed.
+
+(* a solve checked through the row loop (smv A w = b, as the OCaml glue does for the coarsest
+   level) is a solution in the sense of `solves` *)
+Lemma smv_solves (A : smat) (w b : vec) :
+  (forall i p, In p (nth i A []) -> fst p < length A) ->
+  smv F zero add mul A w = b -> solves A w b.
+Proof.
+  intros HC E i Hi. rewrite <- E. unfold Energy.smv. rewrite vget_map_seq by exact Hi.
+  rewrite fold_add_sdot. rewrite (sdot_den (length A)) by (intros p Hp; apply (HC i p Hp)).
+  unfold mvf. replace (0 + sumn (length A) (fun j => den_row (nth i A []) j * vget w j))
+    with (sumn (length A) (fun j => den_row (nth i A []) j * vget w j)) by ring.
+  reflexivity.
+Qed.
+
 End EnergyProofs.
